@@ -1173,8 +1173,11 @@ class WorkflowConductor(object):
     def get_task_context(self, ctx_idxs):
         ctx = {}
 
+        # Merge a copy of each context entry. The merge inserts values by reference and merges
+        # nested dictionaries in place, which would otherwise modify the entries being merged.
         for ctx_idx in ctx_idxs:
-            ctx = dict_util.merge_dicts(ctx, self.workflow_state.contexts[ctx_idx], overwrite=True)
+            ctx_entry = json_util.deepcopy(self.workflow_state.contexts[ctx_idx])
+            ctx = dict_util.merge_dicts(ctx, ctx_entry, overwrite=True)
 
         return ctx
 
